@@ -16,6 +16,13 @@ What is extracted (fail closed: any statement that is not recognised makes the d
  * gen_stream_read : HttpRangeStream.read as a list of SZeroEmpty (`if n == 0: return b""`) / SRequest (range_end, headers,
    session.get) / SRaiseForStatus / SAdvance (`self.range_start += n`) / SReturnContent, in statement order
  * gen_fetch_workers : the worker count CopcReader._fetch_all_chunks hands to both strategies, as a function of http_num_threads
+ * gen_fetch_site : what the reader keeps of a query's fetched blocks for later queries.  FsDirect = nothing: the http branch of
+     _fetch_all_chunks hands byte_queries and the query's own zero-filled buffer straight to the strategy (checked by
+     fetch_workers), and neither _fetch_all_chunks nor _fetch_and_decompress_points_of_nodes stores anything that outlives the
+     call (`no_state_kept`: no store into an attribute / into a container reached through an attribute, no global / nonlocal, no
+     method call on an attribute of self other than source.seek / read / readinto, no module-level container or decorated
+     (memoising) helper referenced, no mutable default argument).  Anything else: MISSING (a block cache is never recognised as
+     correct; FsMemo exists in the model only for the refutation of the offset-keyed one)
 run and http_queue_strategy are read in a normal form (`canon` below: temporaries inlined, docstrings / annotations gone, ...) and up
 to the names of their locals: the names of the taken range, of the stream and of the caught exception are taken from the statements
 that bind them, the statements of http_queue_strategy are compared with the reference ones under one injective renaming of locals.
@@ -33,6 +40,7 @@ Inductive minstr := MPutAll | MStart (use_min : bool) | MJoin | MDrain | MSort |
 Inductive collect_order := BySubmission | ByCompletion.
 Inductive jinstr := JSeek | JRead.
 Inductive sinstr := SZeroEmpty | SRequest | SRaiseForStatus | SAdvance | SReturnContent.
+Inductive fetch_site := FsDirect | FsMemo (by_offset_only : bool).
 """
 
 
@@ -802,6 +810,144 @@ def fetch_workers(repo):
     return "http_num_threads"
 
 
+# ------------------------------------------------------------------ what the reader keeps between two queries
+_CONTAINER_CALLS = {"dict", "list", "set", "defaultdict", "OrderedDict", "deque", "bytearray", "WeakValueDictionary", "Counter",
+                    "WeakKeyDictionary", "ChainMap", "array"}
+
+
+def _makes_container(e):
+    for n in ast.walk(e):
+        if isinstance(n, (ast.Dict, ast.List, ast.Set, ast.ListComp, ast.DictComp, ast.SetComp)):
+            return True
+        if isinstance(n, ast.Call) and u(n.func).split(".")[-1] in _CONTAINER_CALLS:
+            return True
+    return False
+
+
+def module_names(mod):
+    """module-level name -> 'def' | 'class' | 'import' | 'const' | 'state' (a container, or a decorated = possibly memoising function)"""
+    out = {}
+
+    def visit(stmts):
+        for st in stmts:
+            if isinstance(st, (ast.FunctionDef, ast.AsyncFunctionDef)):
+                out[st.name] = "state" if st.decorator_list else "def"
+            elif isinstance(st, ast.ClassDef):
+                out[st.name] = "class"
+            elif isinstance(st, (ast.Import, ast.ImportFrom)):
+                for a in st.names:
+                    out[(a.asname or a.name).split(".")[0]] = "import"
+            elif isinstance(st, (ast.Assign, ast.AnnAssign)):
+                targets = st.targets if isinstance(st, ast.Assign) else [st.target]
+                kind = "state" if (st.value is not None and _makes_container(st.value)) else "const"
+                for t in targets:
+                    for n in ast.walk(t):
+                        if isinstance(n, ast.Name):
+                            out[n.id] = kind if out.get(n.id) != "state" else "state"
+            elif isinstance(st, ast.Try):
+                visit(st.body); visit(st.orelse); visit(st.finalbody)
+                for h in st.handlers:
+                    visit(h.body)
+            elif isinstance(st, (ast.If, ast.With)):
+                visit(st.body); visit(getattr(st, "orelse", []))
+    visit(mod.body)
+    return out
+
+
+def _store_targets(fn):
+    for n in ast.walk(fn):
+        if isinstance(n, ast.Assign):
+            yield from n.targets
+        elif isinstance(n, (ast.AugAssign, ast.AnnAssign, ast.NamedExpr)):
+            yield n.target
+        elif isinstance(n, (ast.For, ast.AsyncFor, ast.comprehension)):
+            yield n.target
+        elif isinstance(n, ast.withitem) and n.optional_vars is not None:
+            yield n.optional_vars
+        elif isinstance(n, ast.Delete):
+            yield from n.targets
+
+
+def _flat(t):
+    if isinstance(t, (ast.Tuple, ast.List)):
+        for x in t.elts:
+            yield from _flat(x)
+    elif isinstance(t, ast.Starred):
+        yield from _flat(t.value)
+    else:
+        yield t
+
+
+def no_state_kept(fn, what, modnames, self_calls):
+    """fail closed unless fn provably leaves nothing behind that a later call could read: see the module docstring"""
+    import builtins
+    if fn.decorator_list:
+        raise Untranslatable(f"{what}: decorated ({u(fn.decorator_list[0])[:40]})")
+    bound = set()
+    for n in ast.walk(fn):
+        if isinstance(n, (ast.Global, ast.Nonlocal)):
+            raise Untranslatable(f"{what}: {u(n)}")
+        if isinstance(n, ast.arg):
+            bound.add(n.arg)
+        elif isinstance(n, ast.Name) and not isinstance(n.ctx, ast.Load):
+            bound.add(n.id)
+        elif isinstance(n, ast.ExceptHandler) and n.name:
+            bound.add(n.name)
+        elif isinstance(n, (ast.FunctionDef, ast.AsyncFunctionDef, ast.ClassDef)) and n is not fn:
+            bound.add(n.name)
+        elif isinstance(n, (ast.Import, ast.ImportFrom)):
+            raise Untranslatable(f"{what}: import inside the function")
+        if isinstance(n, (ast.FunctionDef, ast.AsyncFunctionDef, ast.Lambda)):
+            for d in n.args.defaults + [x for x in n.args.kw_defaults if x is not None]:
+                if _makes_container(d):
+                    raise Untranslatable(f"{what}: mutable default argument {u(d)[:40]}")
+    for t0 in _store_targets(fn):
+        for t in _flat(t0):
+            if isinstance(t, ast.Name):
+                continue
+            base = t
+            while isinstance(base, (ast.Subscript, ast.Attribute)):
+                if isinstance(base, ast.Attribute):
+                    raise Untranslatable(f"{what}: stores into {u(t)[:60]} (outlives the call)")
+                base = base.value
+            if not (isinstance(base, ast.Name) and base.id in bound and base.id != "self"):
+                raise Untranslatable(f"{what}: stores into {u(t)[:60]}")
+    for n in ast.walk(fn):
+        if isinstance(n, ast.Call):
+            f = n.func
+            root = f
+            while isinstance(root, (ast.Attribute, ast.Subscript, ast.Call)):
+                root = root.value if not isinstance(root, ast.Call) else root.func
+            if isinstance(root, ast.Name) and root.id == "self" and norm(u(f)) not in self_calls:
+                raise Untranslatable(f"{what}: calls {u(f)[:60]} (may keep state in the reader)")
+        if isinstance(n, ast.Name) and isinstance(n.ctx, ast.Load) and n.id not in bound and n.id != "self":
+            if hasattr(builtins, n.id):
+                continue
+            kind = modnames.get(n.id)
+            if kind is None:
+                raise Untranslatable(f"{what}: unknown global {n.id}")
+            if kind == "state":
+                raise Untranslatable(f"{what}: uses the module-level container / decorated helper {n.id}")
+
+
+def fetch_site(repo):
+    fetch_workers(repo)                              # the http branch only chooses a strategy and hands it the query's ranges / buffer
+    mod = py2v.parse(repo, "laspy/copc.py")
+    names = module_names(mod)
+    cls = py2v.find_class(mod, "CopcReader")
+    for k, v in [(s.targets[0].id, s.value) for s in cls.body if isinstance(s, ast.Assign) and len(s.targets) == 1
+                 and isinstance(s.targets[0], ast.Name)]:
+        if _makes_container(v):
+            raise Untranslatable(f"CopcReader: class-level container {k}")
+    no_state_kept(py2v.find_func(cls, "_fetch_all_chunks"), "_fetch_all_chunks", names,
+                  {"self.source.seek", "self.source.read", "self.source.readinto"})
+    no_state_kept(py2v.find_func(cls, "_fetch_and_decompress_points_of_nodes"), "_fetch_and_decompress_points_of_nodes", names,
+                  {"self._fetch_all_chunks"})
+    for fn in ("http_queue_strategy", "http_thread_executor_strategy"):
+        no_state_kept(py2v.find_func(mod, fn), fn, names, set())
+    return "FsDirect"
+
+
 def gen(repo):
     o = py2v.Out("laspy/copc.py HttpFetcherThread.run, http_queue_strategy, http_thread_executor_strategy, HttpRangeStream, ChunkIter")
     o.text += TYPES + "\n"
@@ -828,6 +974,7 @@ def gen(repo):
     def fw():
         return f"Definition gen_fetch_workers (http_num_threads : nat) : nat := {fetch_workers(repo)}.\n"
     o.add("gen_fetch_workers", fw)
+    o.add("gen_fetch_site", lambda: f"Definition gen_fetch_site : fetch_site := {fetch_site(repo)}.\n")
     return o
 
 
